@@ -45,10 +45,17 @@ impl<'a> UnusedLiteralVisitor<'a> {
         );
 
         if is_literal {
-            let fix = Autofix {
-                description: "Remove unused value".to_owned(),
-                position: self.get_line_position(&expr.position),
-                new_text: String::new(),
+            // A literal can contain calls, e.g. `[foo()]`. Removing
+            // it would also remove the side effects of those calls,
+            // so we only offer a fix when there aren't any.
+            let fixes = if is_side_effect_free(expr) {
+                vec![Autofix {
+                    description: "Remove unused value".to_owned(),
+                    position: self.get_line_position(&expr.position),
+                    new_text: String::new(),
+                }]
+            } else {
+                vec![]
             };
 
             self.unused_literals.push(Diagnostic {
@@ -56,7 +63,7 @@ impl<'a> UnusedLiteralVisitor<'a> {
                 severity: Severity::Warning,
                 message: ErrorMessage(vec![Text("Unused value.".to_owned())]),
                 position: expr.position.clone(),
-                fixes: vec![fix],
+                fixes,
             });
         }
     }
@@ -101,6 +108,27 @@ impl<'a> UnusedLiteralVisitor<'a> {
             line_end - src[..line_end].rfind('\n').map(|pos| pos + 1).unwrap_or(0);
 
         line_position
+    }
+}
+
+/// Is this expression built only from literals and variables, so
+/// evaluating it cannot do anything other than produce a value?
+fn is_side_effect_free(expr: &Expression) -> bool {
+    match &expr.expr_ {
+        Expression_::IntLiteral(_)
+        | Expression_::FloatLiteral(_)
+        | Expression_::StringLiteral(_)
+        | Expression_::Variable(_) => true,
+        Expression_::Parentheses(paren) => is_side_effect_free(&paren.expr),
+        Expression_::ListLiteral(items) => items.iter().all(|item| is_side_effect_free(&item.expr)),
+        Expression_::TupleLiteral(items) => items.iter().all(|item| is_side_effect_free(item)),
+        Expression_::DictLiteral(items) => items
+            .iter()
+            .all(|item| is_side_effect_free(&item.key) && is_side_effect_free(&item.value)),
+        Expression_::StructLiteral(_, fields) => {
+            fields.iter().all(|(_, value)| is_side_effect_free(value))
+        }
+        _ => false,
     }
 }
 
